@@ -241,7 +241,7 @@ func matchKnown(k []KnownFinding, prop string, v Violation) *KnownFinding {
 func reproduced(v Violation, r NativeResult) bool {
 	switch v.Kind {
 	case "assert":
-		return r.Kind == "assert" && strings.TrimSpace(r.Detail) == strings.TrimSpace(v.Msg)
+		return r.Kind == "assert" && (strings.TrimSpace(r.Detail) == strings.TrimSpace(v.Msg) || strings.HasPrefix(r.Detail, v.Msg+" ["))
 	case "unwind":
 		return r.Kind == "timeout" || r.Kind == "panic"
 	case "alloc":
